@@ -442,7 +442,8 @@ end frame
 
 /-! ### the connect handler on the admin namespace -/
 
-theorem resolve_connect (app : Registry) (adminNs : Ns) (mode : Str) (ro : Bool) (args : List J) :
+theorem resolve_connect (app : Registry) {adminNs : Ns} (hadm : adminNs ≠ star) (mode : Str)
+    (ro : Bool) (args : List J) :
     resolve (instrumentReg app adminNs mode ro) adminNs (.str "connect".toList) args =
       .ok (.fn (.fn adminNs "connect".toList) args) := by
   generalize hc : "connect".toList = c
@@ -451,8 +452,9 @@ theorem resolve_connect (app : Registry) (adminNs : Ns) (mode : Str) (ro : Bool)
     subst hc; simp [instrumentReg, registered]
   have hns : (instrumentReg app adminNs mode ro).fnNs adminNs = true := by
     simp [instrumentReg]
-  simp only [resolve, evStr, hashable, inDict, hstar, hfn, hns, Bool.not_true, Bool.not_false,
-    Bool.true_and, if_true, Bool.false_eq_true, if_false, Option.getD_some]
+  have hne : (adminNs != star) = true := by simpa using hadm
+  simp only [resolve, evStr, hashable, inDict, hstar, hfn, hns, hne, Bool.not_true, Bool.not_false,
+    Bool.and_self, if_true, Bool.false_eq_true, if_false, Option.getD_some]
 
 theorem disconnect_connect {r r' : Rooms.St} {ns : Ns} {t : Eio} {sid : Sid}
     (fresh : ∀ e ∈ r, e.sid ≠ sid) (h : Rooms.connect r ns t sid = some r') :
@@ -472,6 +474,7 @@ section connect
 variable {app : Registry} {adminNs : Ns} {mode : Str} {ro : Bool} {cfg : Cfg}
 
 theorem handleConnect_refused (hreg : cfg.reg = instrumentReg app adminNs mode ro)
+    (hadm : adminNs ≠ star)
     (s : Srv) (t : Eio) (payload : Option J) (acfg : AuthCfg)
     (hscript : cfg.script.onConnect s.nConn = connectOutcome acfg payload)
     (hrefuse : admitsWire acfg payload = false)
@@ -487,7 +490,7 @@ theorem handleConnect_refused (hreg : cfg.reg = instrumentReg app adminNs mode r
       · exact hc
       · simp at hc
     have hback := disconnect_connect hfresh hconn
-    simp only [henv, hreg, resolve_connect, hscript, connectOutcome, hrefuse]
+    simp only [henv, hreg, resolve_connect _ hadm, hscript, connectOutcome, hrefuse]
     simp [mgrDisconnect, hback]
     split <;> simp
 
@@ -499,6 +502,7 @@ theorem mem_sendTo {s : Srv} {t : Eio} {p : Packet} {o : Out} (h : o ∈ sendTo 
 
 /-- A refused attempt talks to nobody but the candidate. -/
 theorem handleConnect_refused_outs (hreg : cfg.reg = instrumentReg app adminNs mode ro)
+    (hadm : adminNs ≠ star)
     (s : Srv) (t : Eio) (payload : Option J) (acfg : AuthCfg)
     (hscript : cfg.script.onConnect s.nConn = connectOutcome acfg payload)
     (hrefuse : admitsWire acfg payload = false)
@@ -512,7 +516,7 @@ theorem handleConnect_refused_outs (hreg : cfg.reg = instrumentReg app adminNs m
     simp only [hc] at ho
     exact Or.inl ⟨_, mem_sendTo ho⟩
   | some rooms' =>
-    simp only [hc, henv, hreg, resolve_connect, hscript, connectOutcome, hrefuse] at ho
+    simp only [hc, henv, hreg, resolve_connect _ hadm, hscript, connectOutcome, hrefuse] at ho
     simp at ho
     cases hac : cfg.alwaysConnect <;> simp [hac] at ho
     · rcases ho with ho | ho
@@ -526,6 +530,7 @@ theorem handleConnect_refused_outs (hreg : cfg.reg = instrumentReg app adminNs m
 /-- Contrast: an admitted attempt on a transport that has no admin session yet ends as a member
     of the admin namespace (so `refused_no_membership` is not true for trivial reasons). -/
 theorem handleConnect_admitted (hreg : cfg.reg = instrumentReg app adminNs mode ro)
+    (hadm : adminNs ≠ star)
     (s : Srv) (t : Eio) (payload : Option J) (acfg : AuthCfg)
     (hscript : cfg.script.onConnect s.nConn = connectOutcome acfg payload)
     (hadmit : admitsWire acfg payload = true)
@@ -536,7 +541,7 @@ theorem handleConnect_admitted (hreg : cfg.reg = instrumentReg app adminNs mode 
   have hserved : isServed cfg adminNs = true := by
     simp [isServed, hreg, instrumentReg]
   simp only [handleConnect, Option.getD_some, hserved, if_true, Rooms.connect, hnew, henv, hreg,
-    resolve_connect, hscript, connectOutcome, hadmit]
+    resolve_connect _ hadm, hscript, connectOutcome, hadmit]
   have key : Rooms.isMember
       (Rooms.add (Rooms.add s.rooms ⟨adminNs, none, sidName s.nextSid, t⟩)
         ⟨adminNs, some (sidName s.nextSid), sidName s.nextSid, t⟩) adminNs none (sidName s.nextSid) = true :=
